@@ -52,6 +52,7 @@ fn cross_plan(prop: &str, thorough: bool) -> Option<(universal::Oracle, bool, Ve
         "C07" => (universal::c07, false, except("C07", &[])),
         "C12" => (universal::c12, false, except("C12", &["C04"])),
         "C15" => (universal::c15, false, except("C15", &["C04"])),
+        "C20" => (universal::c20, false, except("C20", &["C04"])),
         "C18" => (universal::c18, false, except("C18", &["C04"])),
         _ => return None,
     })
